@@ -67,6 +67,12 @@ def _replay(tier, verdict, prop, cov, nproc, d, scen, total, res, extra, key="re
                 elif line.startswith("{"):
                     f = json.loads(line)
                     out["findings"] += 1
+                    if f["kind"] == "mismatch" and _sibling_explains(scen, f):
+                        # records that were handed to the WAL without a sync may or may not have reached the file when the
+                        # process died (the page writer flushes whole pages): the model has one behaviour per possibility
+                        # (Crash(n)); the real outcome is one of them - not a finding
+                        out["explained_by_partial_flush"] = out.get("explained_by_partial_flush", 0) + 1
+                        continue
                     if f["kind"] == "mismatch":
                         why = _clauses(f)
                         if not why:
@@ -99,6 +105,47 @@ def _replay(tier, verdict, prop, cov, nproc, d, scen, total, res, extra, key="re
     cov["transitions"] = cov.get("transitions", 0) + res.generated
     cov["traces_validated_against_impl"] = cov.get("traces_validated_against_impl", 0) + out["replayed"]
     return out
+
+
+_sib_index = {}
+
+
+def _norm_steps(steps):
+    out = []
+    for st in steps:
+        if st["op"] == "crash":
+            out.append(("crash",))
+        elif st["op"] == "recover":
+            out.append(("recover",))
+        else:
+            out.append((st["op"], st.get("i", 0), st.get("t", 0), st.get("c", 0), json.dumps(st.get("ents") or []), bool(st.get("sync"))))
+    return tuple(out)
+
+
+def _sibling_explains(scen_path, f):
+    """Is the recovered triple the model's expectation in a behaviour that differs from this one only in how many unsynced
+    records survived the crashes (the `kept` of its crash steps)?"""
+    if scen_path not in _sib_index:
+        idx = {}
+        for line in open(scen_path):
+            sc = json.loads(line)
+            steps = sc["steps"]
+            for k, st in enumerate(steps):
+                if st["op"] == "recover":
+                    idx.setdefault(_norm_steps(steps[:k + 1]), []).append(st["expect"])
+        _sib_index[scen_path] = idx
+    steps = f["steps"]
+    nrec = 0
+    for k, st in enumerate(steps):
+        if st["op"] == "recover":
+            nrec += 1
+            if nrec == f["epoch"]:
+                got = f["got"]
+                for e in _sib_index[scen_path].get(_norm_steps(steps[:k + 1]), []):
+                    if e["snap"] == got["snap"] and e["hs"] == got["hs"] and e["ents"] == got["ents"] and not got.get("restart"):
+                        return True
+                return False
+    return False
 
 
 def _clauses(f):
